@@ -65,6 +65,9 @@ class Exec(StmtMixin, CallMixin):
             return
         ob = Obligation(self.oid(kind, tag), kind, hyps, goal, self.f.qual if self.f else self.prefix,
                         getattr(node, "lineno", 0), text or (ast.unparse(node) if node is not None else ""), self.inputs)
+        b = self.opt("budget", None)
+        if b:
+            ob.budget = b   # this contract's obligations get b times the solver budget (slow but stable queries)
         self.obligations.append(ob)
         return ob
 
